@@ -39,4 +39,6 @@ def run(rep, fb, tier):
     _pr5.rule_py_isinstance_shadow(rep)
     _pr5.rule_py_none_guard(rep)
     _pr5.rule_py_highlevel_returns(rep)
+    __import__("vf.rules.pyrules3", fromlist=["x"]).rule_py_unused_local(rep)
+    __import__("vf.rules.pyrules3", fromlist=["x"]).rule_py_loop_derived(rep)
     rep.units = fb.units + ["src/awkward/partition.py, _util.py, operations/structure.py (ast)"]
